@@ -1,5 +1,7 @@
 //! Shared components of the runtime-monitoring harness for ypo/flute.
+pub mod gen;
 pub mod mwriter;
+pub mod oracle;
 pub mod report;
 pub mod scenario;
 pub mod session;
